@@ -38,6 +38,8 @@ def generate(rng, tier):
     tb = 60 if tier == "quick" else 1500
     for start, et, data, meta in D.base_inputs(rng, n, tb):
         yield build(meta)
+    # the error records of the length-limited readers
+    yield from D.readlim_cases(rng, 1500 if tier == "quick" else 40000)
     # known-finding class inputs (F9/F12) so that the KNOWN-FINDING lines are exercised every run
     arp = bytes.fromhex("0001080006040001") + bytes(10)
     yield build({"start": "et", "et": 0x0806, "data": hx(arp), "notes": ["F9"]})
@@ -50,6 +52,8 @@ def generate(rng, tier):
 
 
 def is_trivial(c):
+    if "readlim" in c.meta:
+        return not any("err(" in (o or "") for o in c.impl)
     return not any(("err(" in (o or "") or "stop=(" in (o or "")) for o in c.impl[2:])
 
 
@@ -58,6 +62,11 @@ STOP_RE = re.compile(r"stop=\((.*),(\w+)\)\)$")
 
 def oracle(c):
     out = []
+    if "readlim" in c.meta:
+        # the error record of a length-limited reader against the one of the slice decoder (whose records are
+        # compared with the Spec fault above / in Props/C07.lean) on the slice cut at the limit
+        D.readlim_oracle(c, out)
+        return out
     data = bytes.fromhex(c.meta["data"]) if c.meta["data"] != "-" else b""
     spec_strict = c.model[0]
     spec_lax = c.model[1]
